@@ -42,7 +42,9 @@ fn main() {
             },
             "--child" => {
                 let which = args.get(i + 1).cloned().unwrap_or_default();
-                std::process::exit(props::child(&prop, tier, &which));
+                let rest: Vec<String> = args[(i + 2).min(args.len())..].to_vec();
+                report::silence_panics();
+                std::process::exit(props::child(&prop, tier, &which, &rest));
             },
             "--replay" => {
                 replay = args.get(i + 1).cloned();
